@@ -190,14 +190,40 @@ PROPS['C16'] = {
                     'E57Writer::finalize / PointCloudWriter / Blob layers are covered when units e57w/pcw/blob are claimed'],
 }
 
-FIX_COMMITS = ['4bb8197', '4c9a29a', '15147a8', '4e117ba', 'b93d656']
+PROPS['C10'] = {
+    'level': 'proof',
+    'verus': ['bits'],
+    'kani': ['bits_k', 'wr_k'],
+    'claim': ('Writer totality and representability, as far as the units reach: the bit packer (serialize_integer, RecordDataType::write, add_bits) '
+              'is total and stores exactly the value under its precondition min <= value <= max (Verus, C12 unit); integer_bits/bit_size total for all '
+              'i64 ranges incl. min = max and the full range; get_max_packet_points total, >= 1 and packets fit the 16-bit length (Kani, prototype '
+              'length bounded); add_point establishes the packer precondition for everything it buffers and rejects wrong arity/type/range (unit pcw).'),
+    'trusted': GLOBAL_TRUSTED,
+    'assumptions': PROPS['C12']['assumptions'] + [
+        'get_max_packet_points is checked for prototypes of at most 3 records (bounded; complete in the ranges); the underflow for prototypes with more than ~21 000 records (F2b, by reading) is outside that bound',
+        'Extension::validate_name and namespace registration are string code: excluded',
+        'the clause "whenever all calls succeeded the file reads back" is C01/C04/C06'],
+}
+PROPS['C14'] = {
+    'level': 'proof',
+    'kani': ['wr_k'],
+    'claim': ('Leaves, full domain (Kani): update_min/update_max at f64 and i64 are the running minimum/maximum (None -> Some(v); replace iff strictly '
+              'smaller/greater; bitwise incl. NaN behaviour); RecordValue::to_f64/to_i64/to_u8 give the real value of a record (scaled = i*scale+offset) '
+              'and fail exactly on a kind mismatch; RecordDataType::limits = declared range; ColorLimits::from_record_types / '
+              'IntensityLimits::from_record_type take each channel from its own record type. The induction step add_point (18 update sites, frame over '
+              'the bounds structs) and the base case PointCloudWriter::new are in unit pcw.'),
+    'trusted': GLOBAL_TRUSTED,
+    'assumptions': ['XML emission/parsing of bounds and limits is outside (C04)', 'format! stubbed on error paths'],
+}
+
+FIX_COMMITS = ['4bb8197', '4c9a29a', '15147a8', '4e117ba', 'b93d656', 'a099e6e']
 
 _PENDING = 'unit not completed yet in the build round (applicable; see DESIGN.md §1) — not claimed until its obligations are discharged'
 NOT_APPLICABLE = {
     'C01': _PENDING, 'C02': _PENDING,
     'C04': 'lives entirely in format!-built strings and roxmltree parsing; no contract within reach of Verus (no str byte reasoning) or Kani (roxmltree does not finish) can state parse(serialise(x)) = x (DESIGN.md §6)',
-    'C05': _PENDING, 'C06': _PENDING, 'C10': _PENDING,
-    'C14': _PENDING, 'C15': _PENDING, 
+    'C05': _PENDING, 'C06': _PENDING, 
+    'C15': _PENDING, 
     'C18': 'about roxmltree name matching and element lookup over arbitrary XML trees; would need an assumed contract on the dependency, which decides nothing (DESIGN.md §6)',
     'C19': 'whole-file composition of C01+C03+C04 plus writer determinism; the XML half is out of reach and whole-program composition is not a per-function contract; decidable ingredients are discharged under C10/C11/C12 (DESIGN.md §6)',
     'C20': 'the tools are main() functions doing process and file I/O; there is no function to put under contract (DESIGN.md §6)',
